@@ -19,6 +19,7 @@ import ast
 from harness.common import TranslateError, src_text, ast_digest
 
 DICTS = {'VirtualFileSystem': '_mapping', 'ZipFileSystem': '_name_to_info', 'VPKFileSystem': '_name_to_file'}
+CONTAINERS = {'VPKFileSystem': 'vpk'}     # attribute holding a container that can be iterated directly
 CFG = {'VirtualFileSystem': 'virtual_cfg', 'ZipFileSystem': 'zip_cfg', 'VPKFileSystem': 'vpk_cfg'}
 
 
@@ -255,9 +256,37 @@ def _walk(tr: Tr, cls: ast.ClassDef, dict_attr: str):
     if loop is None:
         tr.err(fn, f'{cls.name}.walk_folder: no loop')
     it = loop.iter
-    if not (isinstance(it, ast.Call) and isinstance(it.func, ast.Attribute) and it.func.attr in ('items', 'values')
-            and _dotted(it.func.value) == f'self.{dict_attr}' and not it.args):
-        tr.err(loop, f'{cls.name}.walk_folder does not iterate self.{dict_attr}.items()/.values()')
+    src = 'WDict'
+    container = CONTAINERS.get(cls.name)
+    if (isinstance(it, ast.Call) and isinstance(it.func, ast.Attribute) and it.func.attr in ('items', 'values')
+            and _dotted(it.func.value) == f'self.{dict_attr}' and not it.args and not it.keywords):
+        mode = it.func.attr
+    elif container is not None and _dotted(it) == f'self.{container}':
+        # `for file in self.vpk`: every file of the container, case-duplicates included
+        src, mode = 'WCont None', 'values'
+    elif (container is not None and isinstance(it, ast.Call) and _dotted(it.func) == f'self.{container}.fileinfos'
+          and not it.args):
+        # `for file in self.vpk.fileinfos(folder=<expr>)`: the container's own (exact-case) directory pre-filter
+        pre = None
+        for kw in it.keywords:
+            if kw.arg == 'folder':
+                pbase, pops = tr.expr(kw.value, env)
+                if pbase != 'folder':
+                    tr.err(it, 'fileinfos(folder=...) argument is not derived from the folder parameter')
+                pre = pops
+            elif kw.arg == 'ext' and _is_const(kw.value, None):
+                pass
+            else:
+                tr.err(it, f'unrecognised argument {kw.arg} of fileinfos()')
+        if pre is None:
+            src = 'WCont None'
+        else:
+            _check_fileinfos_prefilter(tr)
+            src = f'WCont (Some {_coq_ops(pre)})'
+        mode = 'values'
+    else:
+        tr.err(loop, f'{cls.name}.walk_folder iterates {ast.unparse(it)[:60]}: neither self.{dict_attr}.items()/.values() '
+                     f'nor a recognised container iteration')
     # classify loop variables
     kinds: dict[str, str] = {}     # dotted expression -> subject
     def value_target(t):
@@ -269,7 +298,7 @@ def _walk(tr: Tr, cls: ast.ClassDef, dict_attr: str):
             kinds[t.elts[0].id] = 'SOrig'      # Virtual: (filename, data)
         else:
             tr.err(loop, 'unrecognised loop target')
-    if it.func.attr == 'items':
+    if mode == 'items':
         t = loop.target
         if not (isinstance(t, ast.Tuple) and len(t.elts) == 2 and isinstance(t.elts[0], ast.Name)):
             tr.err(loop, 'unrecognised items() loop target')
@@ -297,7 +326,36 @@ def _walk(tr: Tr, cls: ast.ClassDef, dict_attr: str):
     pbase, pops = tr.expr(body[0].value.value.args[1], {})
     if kinds.get(pbase) != 'SOrig' or pops:
         tr.err(loop, f'{cls.name}.walk_folder yields path {pbase}, expected the stored filename')
-    return fops, kinds[sbase], sops, loop.lineno
+    return fops, kinds[sbase], sops, loop.lineno, src
+
+
+def _check_fileinfos_prefilter(tr: Tr) -> None:
+    """vpk.py VPK.fileinfos: the `folder` argument must be the test `subfolder.startswith(folder)` on the directory
+    names as stored (the model's WCont (Some ...) means exactly that).  Anything else fails closed."""
+    tree = ast.parse(src_text('vpk.py'))
+    fn = None
+    for n in tree.body:
+        if isinstance(n, ast.ClassDef) and n.name == 'VPK':
+            for m in n.body:
+                if isinstance(m, ast.FunctionDef) and m.name == 'fileinfos':
+                    fn = m
+    if fn is None:
+        tr.err(tree, 'vpk.py: VPK.fileinfos not found')
+    body = [st for st in fn.body if not (isinstance(st, ast.Expr) and isinstance(st.value, ast.Constant))]
+    ok = (len(body) == 1 and isinstance(body[0], ast.For)
+          and ast.unparse(body[0].iter) == 'self._iter_folders(ext)' and len(body[0].body) == 1
+          and isinstance(body[0].body[0], ast.For)
+          and ast.unparse(body[0].body[0].target) == '(subfolder, files)'
+          and ast.unparse(body[0].body[0].iter) == f'{ast.unparse(body[0].target)}.items()')
+    if ok:
+        inner = body[0].body[0].body
+        ok = (len(inner) == 2 and isinstance(inner[0], ast.If) and not inner[0].orelse
+              and ast.unparse(inner[0].test) == 'not subfolder.startswith(folder)'
+              and len(inner[0].body) == 1 and isinstance(inner[0].body[0], ast.Continue)
+              and ast.unparse(inner[1]) == 'yield from files.values()')
+    if not ok:
+        tr.err(fn, 'vpk.py: VPK.fileinfos is not `for folders in ...: for subfolder, files in folders.items(): '
+                   'if not subfolder.startswith(folder): continue; yield from files.values()`')
 
 
 def _coq_ops(ops) -> str:
@@ -316,17 +374,24 @@ def _chain(tr: Tr, side: dict) -> list[str]:
           and len(stmts[0].body) == 1 and len(stmts[0].orelse) == 1)
     if not ok:
         tr.err(fn, 'add_sys: unrecognised shape')
-    ins, app = stmts[0].body[0], stmts[0].orelse[0]
-    def call_on_systems(st, meth, nargs):
-        return (isinstance(st, ast.Expr) and isinstance(st.value, ast.Call) and _dotted(st.value.func) == f'self.systems.{meth}'
-                and len(st.value.args) == nargs and ast.unparse(st.value.args[-1]) == '(sys, prefix)')
-    if not call_on_systems(ins, 'insert', 2) or not isinstance(ins.value.args[0], ast.Constant) \
-            or not isinstance(ins.value.args[0].value, int) or ins.value.args[0].value < 0:
-        tr.err(ins, 'add_sys: priority branch is not self.systems.insert(<n>, (sys, prefix))')
-    if not call_on_systems(app, 'append', 1):
-        tr.err(app, 'add_sys: non-priority branch is not self.systems.append((sys, prefix))')
-    out.append(f'Definition chain_prio_index : nat := {ins.value.args[0].value}.')
-    side['chain_prio_index'] = ins.value.args[0].value
+    def action(st):
+        """self.systems.insert(<n>, (sys, prefix)) -> InsertAt n;  self.systems.append((sys, prefix)) -> Append."""
+        if not (isinstance(st, ast.Expr) and isinstance(st.value, ast.Call) and not st.value.keywords
+                and st.value.args and ast.unparse(st.value.args[-1]) == '(sys, prefix)'):
+            tr.err(st, 'add_sys: branch does not add (sys, prefix) to self.systems')
+        fd = _dotted(st.value.func)
+        if fd == 'self.systems.append' and len(st.value.args) == 1:
+            return 'Append', 'append'
+        if fd == 'self.systems.insert' and len(st.value.args) == 2 and isinstance(st.value.args[0], ast.Constant) \
+                and isinstance(st.value.args[0].value, int) and st.value.args[0].value >= 0:
+            return f'(InsertAt {st.value.args[0].value})', f'insert({st.value.args[0].value})'
+        tr.err(st, 'add_sys: branch is neither self.systems.insert(<n>, (sys, prefix)) nor self.systems.append((sys, prefix))')
+
+    pa, pa_s = action(stmts[0].body[0])
+    na, na_s = action(stmts[0].orelse[0])
+    out.append(f'Definition chain_prio_action : ins_action := {pa}.')
+    out.append(f'Definition chain_plain_action : ins_action := {na}.')
+    side['chain_add_sys'] = {'priority': pa_s, 'plain': na_s}
 
     def systems_loop(fn):
         loops = [s for s in fn.body if isinstance(s, ast.For)]
@@ -373,29 +438,11 @@ def _chain(tr: Tr, side: dict) -> list[str]:
     side['chain_get'] = {'forward': fwd, 'join_ops': jops, 'line': lp.lineno}
 
     # walk_folder (dedup)
-    fn = tr.method(cls, 'walk_folder')
-    stmts = [s for s in fn.body if not (isinstance(s, ast.Expr) and isinstance(s.value, ast.Constant))]
-    ok = (len(stmts) == 2 and isinstance(stmts[0], (ast.Assign, ast.AnnAssign)) and isinstance(stmts[1], ast.For)
-          and ast.unparse(stmts[1].iter) == 'self.walk_folder_repeat(folder)' and _name(stmts[1].target) == 'file')
-    if not ok:
-        tr.err(fn, 'FileSystemChain.walk_folder: unrecognised shape')
-    seen = _name(stmts[0].target if isinstance(stmts[0], ast.AnnAssign) else stmts[0].targets[0])
-    if ast.unparse(stmts[0].value) != 'set()':
-        tr.err(stmts[0], 'walk_folder: visited set is not set()')
-    b = stmts[1].body
-    ok = (len(b) == 4 and isinstance(b[0], ast.Assign) and isinstance(b[1], ast.If) and isinstance(b[2], ast.Expr)
-          and isinstance(b[3], ast.Expr) and isinstance(b[3].value, ast.Yield) and _name(b[3].value.value) == 'file')
-    if not ok:
-        tr.err(stmts[1], 'walk_folder: loop body is not key/test/add/yield')
-    kv = _name(b[0].targets[0])
-    kbase, kops = tr.expr(b[0].value, {})
-    if kbase != 'file.path':
-        tr.err(b[0], 'walk_folder: de-duplication key not derived from file.path')
-    if not (ast.unparse(b[1].test) == f'{kv} in {seen}' and len(b[1].body) == 1 and isinstance(b[1].body[0], ast.Continue)
-            and not b[1].orelse and ast.unparse(b[2].value) == f'{seen}.add({kv})'):
-        tr.err(b[1], 'walk_folder: not `if key in done: continue; done.add(key)`')
+    kops, dmode, dshape = _dedup(tr, tr.method(cls, 'walk_folder'))
     out.append(f'Definition chain_dedup_ops : list sop := {_coq_ops(kops)}.')
+    out.append(f'Definition chain_dedup_mode : dedup_mode := {dmode}.')
     side['chain_dedup_ops'] = kops
+    side['chain_dedup'] = {'mode': dmode, 'shape': dshape}
 
     # walk_folder_repeat
     fn = tr.method(cls, 'walk_folder_repeat')
@@ -426,6 +473,93 @@ def _chain(tr: Tr, side: dict) -> list[str]:
     return out
 
 
+def _dedup(tr: Tr, fn: ast.FunctionDef):
+    """Shape of FileSystemChain.walk_folder: (ops of the de-duplication key, DedupSkip | DedupOverwrite, description).
+
+    Recognised, over `for file in self.walk_folder_repeat(folder)`:
+      visited set:   [k = K]; if K in done: continue; done.add(K); yield file          -> DedupSkip
+                     [k = K]; if K not in done: done.add(K); yield file                -> DedupSkip
+      dict, then `return iter(d.values())` / `return d.values()` / `yield from d.values()`:
+                     d.setdefault(K, file)   |   if K not in d: d[K] = file            -> DedupSkip
+                     d[K] = file  (later members overwrite the File of a name)         -> DedupOverwrite
+    where K is a normalisation of file.path.  Anything else fails closed."""
+    stmts = [s for s in fn.body if not (isinstance(s, ast.Expr) and isinstance(s.value, ast.Constant))]
+    if not (len(stmts) in (2, 3) and isinstance(stmts[0], (ast.Assign, ast.AnnAssign)) and isinstance(stmts[1], ast.For)
+            and ast.unparse(stmts[1].iter) == 'self.walk_folder_repeat(folder)' and _name(stmts[1].target) == 'file'
+            and not stmts[1].orelse):
+        tr.err(fn, 'FileSystemChain.walk_folder: unrecognised shape')
+    coll = _name(stmts[0].target if isinstance(stmts[0], ast.AnnAssign) else stmts[0].targets[0])
+    init = ast.unparse(stmts[0].value) if stmts[0].value is not None else ''
+    if coll is None or init not in ('set()', '{}', 'dict()'):
+        tr.err(stmts[0], 'walk_folder: the visited collection is neither set() nor {} / dict()')
+    is_set = init == 'set()'
+    body = list(stmts[1].body)
+    env: dict = {}
+    if body and isinstance(body[0], ast.Assign) and len(body[0].targets) == 1 and isinstance(body[0].targets[0], ast.Name):
+        kbase, kops0 = tr.expr(body[0].value, {})
+        env[body[0].targets[0].id] = (kbase, kops0)
+        body = body[1:]
+    keys: list[tuple[str, list[str]]] = []
+
+    def key_of(e):
+        k = tr.expr(e, env)
+        keys.append(k)
+        return k
+
+    def is_yield_file(st):
+        return isinstance(st, ast.Expr) and isinstance(st.value, ast.Yield) and _name(st.value.value) == 'file'
+
+    def is_call(st, meth, nargs):
+        return (isinstance(st, ast.Expr) and isinstance(st.value, ast.Call) and isinstance(st.value.func, ast.Attribute)
+                and _name(st.value.func.value) == coll and st.value.func.attr == meth and len(st.value.args) == nargs
+                and not st.value.keywords)
+
+    def membership(test, op):
+        return (isinstance(test, ast.Compare) and len(test.ops) == 1 and isinstance(test.ops[0], op)
+                and _name(test.comparators[0]) == coll)
+
+    def is_store(st):
+        return (isinstance(st, ast.Assign) and len(st.targets) == 1 and isinstance(st.targets[0], ast.Subscript)
+                and _name(st.targets[0].value) == coll and _name(st.value) == 'file')
+
+    mode = shape = None
+    if is_set:
+        if len(stmts) != 2:
+            tr.err(fn, 'walk_folder: statements after the visited-set loop')
+        if (len(body) == 3 and isinstance(body[0], ast.If) and not body[0].orelse and membership(body[0].test, ast.In)
+                and len(body[0].body) == 1 and isinstance(body[0].body[0], ast.Continue)
+                and is_call(body[1], 'add', 1) and is_yield_file(body[2])):
+            key_of(body[0].test.left); key_of(body[1].value.args[0])
+            mode, shape = 'DedupSkip', 'visited set: if key in done: continue; done.add(key); yield file'
+        elif (len(body) == 1 and isinstance(body[0], ast.If) and not body[0].orelse and membership(body[0].test, ast.NotIn)
+              and len(body[0].body) == 2 and is_call(body[0].body[0], 'add', 1) and is_yield_file(body[0].body[1])):
+            key_of(body[0].test.left); key_of(body[0].body[0].value.args[0])
+            mode, shape = 'DedupSkip', 'visited set: if key not in done: done.add(key); yield file'
+    else:
+        tail = ast.unparse(stmts[2]) if len(stmts) == 3 else ''
+        if tail not in (f'return iter({coll}.values())', f'return {coll}.values()', f'yield from {coll}.values()'):
+            tr.err(fn, 'walk_folder: a dict is filled but its values are not returned')
+        if len(body) == 1 and is_call(body[0], 'setdefault', 2) and _name(body[0].value.args[1]) == 'file':
+            key_of(body[0].value.args[0])
+            mode, shape = 'DedupSkip', 'dict.setdefault(key, file)'
+        elif (len(body) == 1 and isinstance(body[0], ast.If) and not body[0].orelse and membership(body[0].test, ast.NotIn)
+              and len(body[0].body) == 1 and is_store(body[0].body[0])):
+            key_of(body[0].test.left); key_of(body[0].body[0].targets[0].slice)
+            mode, shape = 'DedupSkip', 'if key not in d: d[key] = file'
+        elif len(body) == 1 and is_store(body[0]):
+            key_of(body[0].targets[0].slice)
+            mode, shape = 'DedupOverwrite', 'd[key] = file (a later member overwrites the File kept for a name)'
+    if mode is None:
+        tr.err(stmts[1], 'walk_folder: loop body is not a recognised de-duplication')
+    for kb, _ in keys:
+        if kb != 'file.path':
+            tr.err(stmts[1], f'walk_folder: de-duplication key derived from {kb}, not from file.path')
+    for _, ko in keys[1:]:
+        if ko != keys[0][1]:
+            tr.err(stmts[1], 'walk_folder: the membership test and the store use different keys')
+    return keys[0][1], mode, shape
+
+
 def _join_expr(tr: Tr, e, arg: str):
     """os.path.join(prefix, <arg>) followed by string operations -> ('JOIN', ops)."""
     ops: list[str] = []
@@ -449,20 +583,73 @@ def _join_expr(tr: Tr, e, arg: str):
 
 
 def _raw(tr: Tr, side: dict) -> list[str]:
+    """RawFileSystem: which normalisation of the name / folder reaches `self._resolve_path(...)` in each entry point
+    (the directory itself is the OS's business: os.path.isfile / open / os.walk on the resolved path)."""
     cls = tr.classes.get('RawFileSystem')
     if cls is None:
         tr.err(tr.tree, 'RawFileSystem not found')
-    for m in ('_get_file', '_file_exists'):
-        src = ast.unparse(tr.method(cls, m))
-        if 'os.path.isfile(self._resolve_path(name))' not in src:
-            tr.err(cls, f'RawFileSystem.{m} does not test os.path.isfile(self._resolve_path(name))')
+
+    def resolve_ops(mname: str, param: str, os_call: str) -> list[str]:
+        fn = tr.method(cls, mname)
+        env = {param: (param, [])}
+        found: list[list[str]] = []
+        os_seen = False
+
+        def visit(stmts):
+            nonlocal os_seen
+            for st in stmts:
+                if isinstance(st, ast.Expr) and isinstance(st.value, ast.Constant):
+                    continue
+                if isinstance(st, ast.If) and ast.unparse(st.test) == f'isinstance({param}, File)' and not st.orelse \
+                        and len(st.body) == 1 and ast.unparse(st.body[0]) == f'{param} = self._get_data({param})':
+                    continue      # a File of this system carries its own (already listed) path
+                own = [v for f, v in ast.iter_fields(st) if f not in ('body', 'orelse', 'finalbody', 'handlers')]
+                for v in own:
+                    for node in (ast.walk(v) if isinstance(v, ast.AST) else
+                                 [n for x in v if isinstance(x, ast.AST) for n in ast.walk(x)] if isinstance(v, list) else ()):
+                        if isinstance(node, ast.Call) and _dotted(node.func) == 'self._resolve_path':
+                            if len(node.args) != 1 or node.keywords:
+                                tr.err(node, f'RawFileSystem.{mname}: unrecognised _resolve_path call')
+                            base, ops = tr.expr(node.args[0], env)
+                            if base != param:
+                                tr.err(node, f'RawFileSystem.{mname}: resolves {base}, not the {param} argument')
+                            found.append(ops)
+                        if isinstance(node, ast.Call) and _dotted(node.func) == os_call:
+                            os_seen = True
+                if isinstance(st, (ast.Assign, ast.AnnAssign)):
+                    tr._stmt(st, env)
+                for fld in ('body', 'orelse', 'finalbody'):
+                    sub = getattr(st, fld, None)
+                    if isinstance(sub, list):
+                        visit(sub)
+
+        visit(fn.body)
+        if not found or not os_seen:
+            tr.err(fn, f'RawFileSystem.{mname} does not pass self._resolve_path(...) to {os_call}')
+        for o in found[1:]:
+            if o != found[0]:
+                tr.err(fn, f'RawFileSystem.{mname}: different normalisations reach _resolve_path')
+        return found[0]
+
+    g = resolve_ops('_get_file', 'name', 'os.path.isfile')
+    e = resolve_ops('_file_exists', 'name', 'os.path.isfile')
+    o = resolve_ops('open_bin', 'name', 'open')
+    ostr = resolve_ops('open_str', 'name', 'open')
+    if ostr != o:
+        tr.err(cls, f'RawFileSystem: open_str and open_bin normalise differently: {ostr} vs {o}')
+    w = resolve_ops('walk_folder', 'folder', 'os.walk')
     src = ast.unparse(tr.method(cls, 'walk_folder'))
-    need = ['self._resolve_path(folder)', 'os.walk(path)', 'os.path.relpath(os.path.join(dirpath, file), self.path)']
-    for n in need:
+    for n in ['os.walk(path)', "os.path.relpath(os.path.join(dirpath, file), self.path).replace('\\\\', '/')",
+              'yield File(self, rel_path, rel_path)']:
         if n not in src:
             tr.err(cls, f'RawFileSystem.walk_folder: missing {n}')
-    side['raw'] = 'os.path.isfile / os.walk / relpath to self.path'
-    return ['Definition raw_is_os_exact : bool := true.']
+    side['raw'] = {'get': g, 'exists': e, 'open': o, 'walk_folder': w,
+                   'os': 'os.path.isfile / open / os.walk on self._resolve_path(...); listed names relative to self.path'}
+    return ['Definition raw_is_os_exact : bool := true.',
+            f'Definition raw_get_ops : list sop := {_coq_ops(g)}.',
+            f'Definition raw_exists_ops : list sop := {_coq_ops(e)}.',
+            f'Definition raw_open_ops : list sop := {_coq_ops(o)}.',
+            f'Definition raw_walk_ops : list sop := {_coq_ops(w)}.']
 
 
 def translate() -> tuple[str, dict]:
@@ -486,12 +673,12 @@ def translate() -> tuple[str, dict]:
             ops_str = _key_uses(tr, tr.method(cls, 'open_str'), dattr, 'name')
         if ops_str != op:
             tr.err(cls, f'{cname}: open_str and open_bin normalise differently: {ops_str} vs {op}')
-        wf, subj, sops, line = _walk(tr, cls, dattr)
+        wf, subj, sops, line, wsrc = _walk(tr, cls, dattr)
         lines.append(f'Definition {CFG[cname]} : backend := {{|')
         lines.append(f'  b_store := {_coq_ops(store)}; b_get := {_coq_ops(get)}; b_exists := {_coq_ops(ex)}; b_open := {_coq_ops(op)};')
-        lines.append(f'  b_wfolder := {_coq_ops(wf)}; b_wsubj := {subj}; b_wsubj_ops := {_coq_ops(sops)} |}}.')
+        lines.append(f'  b_wsrc := {wsrc}; b_wfolder := {_coq_ops(wf)}; b_wsubj := {subj}; b_wsubj_ops := {_coq_ops(sops)} |}}.')
         side['backends'][cname] = {'store': store, 'get': get, 'exists': ex, 'open': op, 'walk_folder': wf,
-                                   'walk_subject': subj, 'walk_subject_ops': sops, 'walk_line': line,
+                                   'walk_source': wsrc, 'walk_subject': subj, 'walk_subject_ops': sops, 'walk_line': line,
                                    'digest': ast_digest(cls)}
     lines.append('')
     lines += _raw(tr, side)
